@@ -429,6 +429,58 @@ def c17_nothing_else_changes(n: int, k: int, role: int) -> bool:
     return ok
 
 
+DOC_METHODS = ["run", "lambda", "global", "del", "markdown", "svg", "print", "serialize", "insert", "in", "is", "html", "pass", "plain_name"]
+
+
+def c17_documented_member(i: int, static: int, nargs: int) -> bool:
+    """
+    The documentation attached to a binding is looked up under the C++ member's own name and class — also when the Python
+    binding is named differently (keywords get `_`, ipython display methods become `_repr_x_`, print becomes __repr__):
+    every binding of `Cls::<name>` carries `doc of top::Cls.<name>(<args>)`.
+    pre: 0 <= i < len(DOC_METHODS) and 0 <= static <= 1 and 0 <= nargs <= 2
+    post: _
+    """
+    i, static, nargs = pick(i, 0, len(DOC_METHODS)), pick(static, 0, 2), pick(nargs, 0, 3)
+    with concrete():
+        from harness import readers
+        name = DOC_METHODS[i]
+        args = ["int key", "double value = 1.5"][:nargs]
+        names = ["key", "value"][:nargs]
+        member = ("static double %s(%s);" if static else "double %s(%s) const;") % (name, ", ".join(args))
+        text = "namespace top { class Cls { Cls(); %s void other(int z) const; }; }" % member
+        w = PybindWrapper(module_name="mod", top_module_namespaces=[''], ignore_classes=[''], module_template=pipe.PYBIND_TPL, xml_source="xmlsrc")
+        asked = []
+
+        def fake(folder, cls, meth, argnames):
+            asked.append((cls, meth, tuple(argnames)))
+            return "doc of %s.%s(%s)" % (cls, meth, ",".join(argnames))
+        w.xml_parser.extract_docstring = fake
+        problems = []
+        try:
+            body = pipe.pybind_body(text, wrapper=w)
+        except Exception as ex:
+            body = ""
+            problems.append("raised %r" % ex)
+        def text_of(lit):            # body of the literal -> bytes -> text
+            by = c_decode(lit[1:-1]) if len(lit) >= 2 and lit[0] == lit[-1] == '"' else None
+            return None if by is None else bytes(by).decode("utf-8", "replace")
+        docs = [text_of(d["doc"]) for e in readers.parse_pybind(body) for d in e.get("defs", []) if d.get("doc")] if body else []
+        special = name in ("serialize", "print") or (static and name in ("markdown", "svg", "html"))
+        if not special and not problems:
+            want_full = "doc of top::Cls.%s(%s)" % (name, ",".join(names))
+            want_short = None          # (pybind keeps one binding with a keyword default; nothing to look up for a shorter form)
+            if want_full not in docs:
+                problems.append("no binding carries %r; docstrings present: %r; lookups made: %r" % (want_full, docs, asked))
+            if want_short and want_short not in docs:
+                problems.append("the binding without the defaulted argument does not carry %r; docstrings present: %r" % (want_short, docs))
+        bad = [a for a in asked if a[0] != "top::Cls" or a[1] not in (name, "other", "Cls")]
+        if bad:
+            problems.append("documentation looked up under a name that is not a C++ member of the class: %r" % bad[:3])
+        ok = not problems or _fail(text=text, problems=problems)
+    reached({"name": DOC_METHODS[i], "static": static, "nargs": nargs})
+    return ok
+
+
 def conds(tier):
     q = tier == "quick"
     t = (lambda x, y: x) if q else (lambda x, y: y)
@@ -443,5 +495,7 @@ def conds(tier):
         xh.Cond(M, "c17_xml_folder", t(120, 600), kind="shape-bounded", examples=["kind=0, pos=0, target=0", "kind=1, pos=2, target=0", "kind=2, pos=3, target=2", "kind=3, pos=1, target=1"],
                 bounds="real XML folder: 4 compound kinds x 4 positions in index.xml x 4 class-name forms, with decoy compounds"),
         xh.Cond(M, "c17_partial_xml", t(120, 600), kind="shape-bounded", examples=["shape=1", "shape=5"], bounds="6 partial-XML shapes"),
+        xh.Cond(M, "c17_documented_member", t(200, 600), kind="shape-bounded", examples=["i=1, static=0, nargs=1", "i=4, static=0, nargs=0", "i=2, static=1, nargs=2", "i=0, static=0, nargs=2"],
+                bounds="%d member names (ordinary, Python keywords, ipython display names, print, serialize, insert) x static x 0-2 parameters (one defaulted)" % len(DOC_METHODS)),
         xh.Cond(M, "c17_nothing_else_changes", t(200, 900), kind="shape-bounded", examples=["n=2, k=1, role=0"], bounds="0-2 args x defaults x 3 roles"),
     ]
